@@ -278,7 +278,7 @@ __CPROVER_assigns(LEGAL(EVV(emu), emu->thread->state) && EVV(emu) == 'x' && CPU_
 __CPROVER_assigns(GHOST_FRAME)
 __CPROVER_ensures(RET == 0 || RET == -1)
 /* the iff of the statement, with every other refusal cause named */
-__CPROVER_ensures((RET == 0) == (EVV(emu) == 'C' ||
+__CPROVER_ensures((RET == 0) == ((EVV(emu) == 'C' && emu->ev->payload_size == 12) ||
 	(LEGAL(EVV(emu), __CPROVER_old(emu->thread->state)) && (EVV(emu) != 'x' || CPU_OK(emu)) && !CB_FAILED && !CPU_FAILED)))
 /* every value byte outside {C,x,e,p,r,c,w} is refused */
 __CPROVER_ensures(EVV(emu) == 'C' || IS_FSM_EV(EVV(emu)) || RET == -1)
@@ -289,7 +289,7 @@ __CPROVER_ensures(RET != 0 || !IS_FSM_EV(EVV(emu)) || (emu->thread->state == NEW
 /* ... and the CPU was told (update / add / remove) once, after the state change */
 __CPROVER_ensures(RET != 0 || !IS_FSM_EV(EVV(emu)) || CPU_TOLD(EVV(emu) == 'x' ? 2 : EVV(emu) == 'e' ? 3 : 1,
 	EVV(emu) == 'e' ? __CPROVER_old(emu->thread->cpu) : emu->thread->cpu, NEWST(EVV(emu))))
-/* create ('C') is accepted in any state and changes nothing (frame) */
+/* create ('C') is accepted in any state iff it carries its declared 12-byte payload, and changes nothing (frame) */
 __CPROVER_ensures(EVV(emu) != 'C' || g_cpu_calls == __CPROVER_old(g_cpu_calls))
 __CPROVER_ensures(RET == 0 ? g_err == __CPROVER_old(g_err) : g_err > __CPROVER_old(g_err))
 ;
@@ -303,6 +303,7 @@ void h_pre_thread(void)
 	if (r != 0 && w_v == 'c' && w_state == TH_ST_PAUSED) REACH("OHc on a paused thread refused");
 	if (r != 0 && !IS_FSM_EV(w_v)) REACH("unknown OH value refused");
 	if (r == 0 && w_v == 'C') REACH("OHC accepted");
+	if (r != 0 && w_v == 'C') REACH("OHC with a wrong payload size refused");
 	if (r == 0 && w_v == 'w') REACH("OHw accepted");
 	if (r == 0 && w_v == 'e') REACH("OHe accepted");
 	if (r != 0 && w_v == 'r' && w_state == TH_ST_PAUSED) REACH("legal OHr refused by a lower layer");
